@@ -154,6 +154,12 @@ def misc_cases(tier):
                         for c, d in itertools.combinations(range(nf + 1), 2):
                             a_, b_, c_, d_ = a + shift, b + shift, c + shift, d + shift
                             yield {"sp": "misc", "t": t, "g": [["poly", [[a_, c_], [b_, c_], [b_, d_], [a_, d_]]]]}
+                            if (b == nt or d == nf) and (a == 0 or c == 0):
+                                # the same rectangle as a dense outline (48 and 160 collinear vertices): same cells
+                                for m in (12, 40):
+                                    ring = ([[a_ + (b_ - a_) * i / m, c_] for i in range(m)] + [[b_, c_ + (d_ - c_) * i / m] for i in range(m)]
+                                            + [[b_ - (b_ - a_) * i / m, d_] for i in range(m)] + [[a_, d_ - (d_ - c_) * i / m] for i in range(m)])
+                                    yield {"sp": "misc", "t": t, "g": [["poly", ring]]}
                 for a, b in itertools.combinations(positions(nt, bt), 2):
                     yield {"sp": "misc", "t": t, "g": [["interval", [a, b]]]}
                 for a in positions(nt, bt):
@@ -272,7 +278,7 @@ def bounds(tier):
                           "axis) x size x order x all_touched" if q else "none (all four configurations are full products)"),
         "FULL tri": "single Polygon triangles, every 3-subset of the (nt+1)(nf+1) lattice points, x size x order x "
                     "all_touched for (cfg, shift, max size) in %s" % (tri_plan(tier),),
-        "FULL misc": "cfg in %s x size x order x all_touched x {4-vertex rectangle polygons (integer and half-shifted), "
+        "FULL misc": "cfg in %s x size x order x all_touched x {4-vertex rectangle polygons (integer and half-shifted; those reaching the template's far edges also as 48- and 160-vertex outlines), "
                      "full-template rectangles with every integer (and quarter-widened) rectangular hole as Polygon and as 1- and 2-part MultiPolygon (sizes >= 3x3), "
                      "time intervals (all edge pairs), time stamps (all positions), points (all positions^2), 2-point "
                      "line strings over 6 anchor points}" % (["A", "D"] if q else ["A", "B", "C", "D"]),
